@@ -50,7 +50,9 @@ static uint64_t sm(uint64_t *s)
 	return z ^ (z >> 31);
 }
 
-typedef struct { char kind; size_t n; } slicing;   // a = everything, f = fixed n, r = random 0..n (zero-length slices allowed)
+typedef struct { char kind; size_t n; } slicing;   // a = everything, f = fixed n, r = random 0..n (zero-length slices allowed),
+                                                   // p = chunks of n, but inside a window (placed by the slice seed, half of the time at the end of the
+                                                   //     input) one byte at a time with a zero-length "poll" call after each byte
 
 static slicing parse_slicing(const char *s)
 {
@@ -127,6 +129,13 @@ static void app_loop(lzma_stream *strm, const uint8_t *data, size_t len, slicing
 {
 	uint64_t rng = slice_seed * 77 + 5;
 	size_t pos = 0;                 // bytes handed to the decoder so far (end of the current input slice)
+	// pause window of the 'p' input slicing
+	size_t win_len = 64 + (size_t)(sm(&rng) % 512), win_start = 0;
+	int poll_next = 0;
+	if (ins.kind == 'p') {
+		if (win_len > len) win_len = len;
+		win_start = (sm(&rng) & 1) ? len - win_len : (size_t)(sm(&rng) % (len - win_len + 1));
+	}
 	size_t ocap = 1 << 16;
 	uint8_t *obuf = malloc(ocap);
 	uint64_t noprog = 0;
@@ -139,7 +148,19 @@ static void app_loop(lzma_stream *strm, const uint8_t *data, size_t len, slicing
 	r->ret = LZMA_OK;
 	for (;;) {
 		if (strm->avail_in == 0 && pos < len) {
-			size_t k = next_slice(&ins, &rng, len - pos, len);
+			size_t k;
+			if (ins.kind == 'p') {
+				if (pos >= win_start && pos < win_start + win_len) {
+					k = poll_next ? 0 : 1;
+					poll_next = !poll_next;
+				} else {
+					k = ins.n;
+					if (pos < win_start && pos + k > win_start) k = win_start - pos;
+				}
+				if (k > len - pos) k = len - pos;
+			} else {
+				k = next_slice(&ins, &rng, len - pos, len);
+			}
 			if (k == 0 && !last_progress) k = 1;
 			strm->next_in = data + pos;
 			strm->avail_in = k;
@@ -281,7 +302,31 @@ int main(void)
 		memset(&st, 0, sizeof st);
 		sched_begin(&cfg);
 		lzma_stream strm = LZMA_STREAM_INIT;
-		lzma_ret ir = lzma_stream_decoder_mt(&strm, &mt);
+		lzma_ret ir;
+		const char *pre = arg(&l, "pre", NULL);
+		if (pre != NULL && strcmp(pre, "-") != 0) {
+			// abandon a first decode after `precalls` calls (queue possibly partly read), then re-initialise the SAME handle
+			size_t plen = 0;
+			uint8_t *pdata = read_file(pre, &plen);
+			if (pdata != NULL) {
+				result pr;
+				memset(&pr, 0, sizeof pr);
+				const int saved = ev_on;
+				ev_on = 0;
+				if (lzma_stream_decoder_mt(&strm, &mt) == LZMA_OK)
+					app_loop(&strm, pdata, plen, ins, outs, slice_seed + 7, fin, atol(arg(&l, "precalls", "3")), maxcalls, prog, 0, &pr);
+				free(pr.out.p); free(pr.info.p);
+				// the input buffer of the abandoned decode must stay valid until the re-initialisation has joined the workers
+				ir = lzma_stream_decoder_mt(&strm, &mt);
+				free(pdata);
+				ev_on = saved;
+				evbuf.n = 0;
+				ev_nptrs = 0;
+				goto inited;
+			}
+		}
+		ir = lzma_stream_decoder_mt(&strm, &mt);
+inited:
 		if (ir != LZMA_OK) {
 			mtr.ret = ir;
 		} else {
